@@ -397,6 +397,14 @@ impl DecompressorOxide {
     }
 }
 
+#[cfg(feature = "verif-hooks")]
+impl DecompressorOxide {
+    /// Verification hook: numeric id of the current automaton state (read-only).
+    pub fn verif_state(&self) -> u8 {
+        self.state as u8
+    }
+}
+
 impl Default for DecompressorOxide {
     /// Create a new tinfl_decompressor with all fields set to 0.
     #[inline(always)]
